@@ -13,7 +13,10 @@ from . import engine
 
 # modules of the tree under test that are loaded through the set-order / id() owning transform
 # (vmc.setorder, DESIGN.md 2.4) for a given property; must be installed before xsdata is imported
+CODEGEN_PREFIXES = ["xsdata.codegen", "xsdata.utils.graphs", "xsdata.utils.collections", "xsdata.models.xsd", "xsdata.models.wsdl", "xsdata.models.dtd", "xsdata.models.mixins",
+                    "xsdata.formats.dataclass.generator", "xsdata.formats.dataclass.filters", "xsdata.formats.converter", "xsdata.formats.mixins"]
 SETORDER = {
+    "C12": {"prefixes": CODEGEN_PREFIXES, "own_ids": True},
     "C04": {"prefixes": ["xsdata.formats.dataclass.parsers.dict", "xsdata.formats.dataclass.context", "xsdata.formats.dataclass.serializers.dict"]},
 }
 
